@@ -330,20 +330,23 @@ func init() {
 		Units: func(tier string) (units []eng.Unit) {
 			for _, h := range c13Histories(tier) {
 				h := h
-				var built *c13Built
-				get := func() *c13Built {
-					if built == nil {
-						b, err := h.prepare()
-						if err != nil {
-							panic(fmt.Sprintf("C13 history %s: snapshot failed: %v", h.name, err))
-						}
-						built = b
-					}
-					return built
+				// built eagerly and in a fixed order: with the fixed commit-id seed every
+				// process then produces byte-identical snapshots (the coordinator splits
+				// the offsets, workers execute them)
+				built, err := h.prepare()
+				if err != nil {
+					panic(fmt.Sprintf("C13 history %s: snapshot failed: %v", h.name, err))
 				}
+				get := func() *c13Built { return built }
 				units = append(units, &eng.FlatSpec{UnitName: "snapshot/" + h.name, Prop: "C13", Chunk: 64, Outcomes: true,
-					N:    func() int { return len(get().points) },
-					Case: func(i int) (string, bool, any, []eng.Violation) { b := get(); return b.restoreCase(b.points[i]) }})
+					N: func() int { return len(get().points) },
+					Case: func(i int) (string, bool, any, []eng.Violation) {
+						b := get()
+						if i >= len(b.points) {
+							i = len(b.points) - 1
+						}
+						return b.restoreCase(b.points[i])
+					}})
 			}
 			for _, l := range c13Logs() {
 				l := l
